@@ -17,6 +17,7 @@
 import DeepModel.Proofs.CollectorSnap
 import DeepModel.Proofs.CollectorBenign
 import DeepModel.Proofs.CollectorExamples
+import DeepModel.Proofs.CollectorDangling
 
 namespace C07
 open Heap Collector Extracted.Collector
@@ -148,6 +149,31 @@ theorem c07_closed_partial (H : Heap) (a : ActionIn) (s : Snapshot)
       simp only [hv, Option.map_some, Option.some.injEq] at hwv
       subst hwv
       exact h3 w hw v hv
+
+/-- **closed, exactly what the code does** — NO hypothesis: for every heap, limits, frames (any number, any frame type /
+    time-budget selection) and watch / log / capture values, every reference of a finished snapshot — on any frame, as a
+    child of any entry, as a result — resolves to an entry of the snapshot's table, with ONE exception: a reference made for
+    the locals dict of a collected frame (the pseudo-entry the unwrap step deletes; known finding
+    `C07/locals-dict-self-reference`).  `c07_closed_partial` is the special case in which no such reference can arise. -/
+theorem c07_dangling_only_locals (H : Heap) (a : ActionIn) (s : Snapshot) (h : collect H a = .ok s) :
+    ∀ r ∈ snapRefs s, r.2 ∈ s.table.map (·.vid) ∨ r.1 ∈ localsOf a.frames := by
+  have f := collect_facts h
+  intro r hr
+  exact collect_cov h r (mem_snapRefs f r hr)
+
+/-- hence: a snapshot none of whose references was made for a collected frame's locals dict is closed — a condition on
+    the SNAPSHOT (checkable on the observation), weaker than `NoRef` (a condition on the whole heap, reachable or not). -/
+theorem c07_closed_of_no_locals_ref (H : Heap) (a : ActionIn) (s : Snapshot) (h : collect H a = .ok s)
+    (hno : ∀ r ∈ snapRefs s, r.1 ∉ localsOf a.frames) : ∀ r ∈ snapRefs s, r.2 ∈ s.table.map (·.vid) := by
+  intro r hr
+  rcases c07_dangling_only_locals H a s h r hr with h1 | h1
+  · exact h1
+  · exact absurd h1 (hno r hr)
+
+/-- non-vacuity of the exception: in the D31 snapshot the one dangling reference `(object 0, id 1)` is the locals dict -/
+example : (match collect Ex.localsSelf ⟨⟨40, 1024, 10, 5⟩, Ex.frame0, []⟩ with
+    | .ok s => decide (((0 : ObjId), (1 : Nat)) ∈ snapRefs s ∧ (1 : Nat) ∉ s.table.map (·.vid))
+    | .failed _ => false) = true ∧ (0 : ObjId) ∈ localsOf Ex.frame0 := by decide
 
 /-- **results have an id** (D10 and its sibling for captured values) — a watch, log-field or capture result that is
     attached (not an error) carries an id: when the budget is exhausted before the value is recorded the result is an
